@@ -1294,7 +1294,15 @@ class ValueObject(Value):
         return self.value == other.value
 
     def __lt__(self, other):
-        return str(self) < str(other)
+        a, b = str(self), str(other)
+        if a == b and isinstance(other, ValueObject):
+            # the rendering leaves out hidden members and may come from
+            # _str_: all members, by name, decide
+            return self.sortedMembers() < other.sortedMembers()
+        return a < b
+
+    def sortedMembers(self):
+        return sorted(self.value.items(), key=lambda member: member[0])
 
     def __repr__(self):
         fn = self.resolveItem("_str_")
